@@ -9,6 +9,7 @@ from .. import core, harness, sched
 
 ID = "C16"
 LEVEL = "model_checking"
+EARLY_POOL_PATCH = True
 
 # (harness, pool size, granularity, preemption bound)
 PLAN = {
@@ -137,6 +138,7 @@ def free_running(tier):
 
     multiprocessing.pool.ThreadPool = conformance.REAL_POOL
     catii.xcubes.xcube.pool_class = conformance.REAL_POOL
+    sched._rebind(conformance.REAL_POOL)
     old = sys.getswitchinterval()
     sys.setswitchinterval(1e-6)
     bad = []
